@@ -1,7 +1,2251 @@
-//! C20: not implemented yet.
+//! C20: scalar functions, CAST, control flow and arithmetic operators match their documented
+//! definitions (README "SQL Functions" tables + module docs of src/sql/functions/*.rs; the functions
+//! are MySQL-named, so MySQL semantics is the definition where the README gives name + one line).
+//!
+//! Every case is one function/operator application. It is run as a constant expression
+//! (`SELECT f(<literals>)`) and over table columns (`SELECT f(c1, c2) FROM c WHERE id = k`, after the
+//! stored arguments were read back and found intact). The oracle (`build`) is written here,
+//! independently of TurDB's implementation, over Unicode scalar values / exact i128 arithmetic.
+//! Only what the docs pin is asserted; everything else is `NoPanic`.
+//!
+//! Signature: `C20/<function or operator>/<class of argument>/<assertion>`; arithmetic panics:
+//! `C20/no_wrap/panic/<file:line>`.
+use crate::report::Ctx;
+use crate::rng::{fnv, Rng};
+use crate::sqlm::db::{is_panic, Db, Scratch};
+use crate::sqlm::val::V;
 use crate::Args;
+use serde_json::{json, Value as J};
+use std::collections::BTreeMap;
 
-pub fn run(_a: &Args) -> i32 {
-    println!("INCONCLUSIVE property=C20 reason=check not implemented yet");
-    2
+// ---------------------------------------------------------------------------------------------
+// expectations
+// ---------------------------------------------------------------------------------------------
+
+#[derive(Clone, Debug)]
+pub enum Exp {
+    /// exactly this value (an integral float equal to the expected integer is accepted and vice versa;
+    /// TRUE/FALSE are accepted as 1/0)
+    Is(V),
+    /// a number within relative tolerance
+    Near(f64, f64),
+    /// must be NULL
+    Null,
+    /// NULL or an SQL error
+    NullOrErr,
+    /// float overflow: +-inf, NULL or an SQL error
+    InfOrNullOrErr,
+    OneOf(Vec<Exp>),
+    /// any non-NULL text
+    TextAny,
+    /// float in [0, 1)
+    Unit01,
+    /// definition not pinned by the docs: only "does not panic"
+    NoPanic,
+}
+
+fn exact_int_of_float(f: f64) -> Option<i128> {
+    if f.is_finite() && f.fract() == 0.0 && f.abs() < 1.0e38 {
+        Some(f as i128)
+    } else {
+        None
+    }
+}
+
+fn accepts(exp: &Exp, got: &Result<V, String>) -> bool {
+    match exp {
+        Exp::NoPanic => true,
+        Exp::OneOf(xs) => xs.iter().any(|x| accepts(x, got)),
+        Exp::NullOrErr => matches!(got, Err(_) | Ok(V::Null)),
+        Exp::InfOrNullOrErr => match got {
+            Err(_) | Ok(V::Null) => true,
+            Ok(V::Float(f)) => f.is_infinite(),
+            _ => false,
+        },
+        Exp::Null => matches!(got, Ok(V::Null)),
+        Exp::TextAny => matches!(got, Ok(V::Text(_))),
+        Exp::Unit01 => matches!(got, Ok(V::Float(f)) if *f >= 0.0 && *f < 1.0),
+        Exp::Near(x, tol) => {
+            let g = match got {
+                Ok(V::Float(f)) => *f,
+                Ok(V::Int(i)) => *i as f64,
+                _ => return false,
+            };
+            if x.is_infinite() || g.is_infinite() {
+                return *x == g;
+            }
+            if g.is_nan() {
+                return false;
+            }
+            (g - x).abs() <= tol * x.abs().max(1e-300)
+        }
+        Exp::Is(want) => {
+            let g = match got {
+                Ok(g) => g,
+                Err(_) => return false,
+            };
+            match (want, g) {
+                (V::Null, V::Null) => true,
+                (V::Text(a), V::Text(b)) => a == b,
+                (V::Int(a), V::Int(b)) => a == b,
+                (V::Int(a), V::Bool(b)) => *a == *b as i64,
+                (V::Bool(a), V::Bool(b)) => a == b,
+                (V::Bool(a), V::Int(b)) => (*a as i64) == *b,
+                (V::Int(a), V::Float(f)) => exact_int_of_float(*f) == Some(*a as i128),
+                (V::Float(a), V::Float(b)) => a == b || (a.is_nan() && b.is_nan()),
+                (V::Float(a), V::Int(b)) => exact_int_of_float(*a) == Some(*b as i128),
+                _ => false,
+            }
+        }
+    }
+}
+
+// ---------------------------------------------------------------------------------------------
+// cases
+// ---------------------------------------------------------------------------------------------
+
+#[derive(Clone, Debug)]
+pub struct Case {
+    /// canonical function/operator name (signature component)
+    pub func: String,
+    /// class of argument (signature component)
+    pub class: String,
+    /// expression with {0},{1},.. placeholders
+    pub tmpl: String,
+    pub args: Vec<V>,
+    /// column class per argument: 'i' BIGINT, 'f' DOUBLE PRECISION, 's' TEXT
+    pub tys: Vec<char>,
+    pub exp: Exp,
+    /// name of the sub-assertion when the expectation fails
+    pub assertion: &'static str,
+    /// per argument: NULL in => NULL out
+    pub np: Vec<bool>,
+    /// name the case was built from (for rebuilding while shrinking)
+    pub call: &'static str,
+}
+
+pub fn lit(v: &V) -> String {
+    match v {
+        V::Int(i) if *i == i64::MIN => "(-9223372036854775807 - 1)".into(),
+        V::Int(i) if *i < 0 => format!("({})", i),
+        V::Int(i) => i.to_string(),
+        V::Float(f) => {
+            let s = if f.fract() == 0.0 && f.abs() < 1e15 { format!("{:.1}", f.abs()) } else { format!("{:?}", f.abs()) };
+            if f.is_sign_negative() {
+                format!("(-{})", s)
+            } else {
+                s
+            }
+        }
+        other => other.sql(),
+    }
+}
+
+/// literal as accepted inside INSERT .. VALUES (no expressions there)
+fn ins_lit(v: &V) -> String {
+    match v {
+        V::Int(i) if *i == i64::MIN => "-9223372036854775808".into(),
+        V::Int(i) => i.to_string(),
+        V::Float(f) => {
+            let s = if f.fract() == 0.0 && f.abs() < 1e15 { format!("{:.1}", f.abs()) } else { format!("{:?}", f.abs()) };
+            if f.is_sign_negative() {
+                format!("-{}", s)
+            } else {
+                s
+            }
+        }
+        other => other.sql(),
+    }
+}
+
+fn render(tmpl: &str, parts: &[String]) -> String {
+    let mut out = tmpl.to_string();
+    for (i, p) in parts.iter().enumerate().rev() {
+        out = out.replace(&format!("{{{}}}", i), p);
+    }
+    out
+}
+
+impl Case {
+    pub fn const_sql(&self) -> String {
+        format!("SELECT {}", render(&self.tmpl, &self.args.iter().map(lit).collect::<Vec<_>>()))
+    }
+    /// column names assigned to the arguments, None if there are not enough columns of a class
+    fn col_names(&self) -> Option<Vec<String>> {
+        let (mut ni, mut nf, mut ns) = (0, 0, 0);
+        let mut out = vec![];
+        for t in &self.tys {
+            match t {
+                'i' => {
+                    ni += 1;
+                    if ni > 4 {
+                        return None;
+                    }
+                    out.push(format!("i{}", ni));
+                }
+                'f' => {
+                    nf += 1;
+                    if nf > 3 {
+                        return None;
+                    }
+                    out.push(format!("f{}", nf));
+                }
+                _ => {
+                    ns += 1;
+                    if ns > 4 {
+                        return None;
+                    }
+                    out.push(format!("s{}", ns));
+                }
+            }
+        }
+        Some(out)
+    }
+}
+
+const C_COLS: [&str; 11] = ["i1", "i2", "i3", "i4", "f1", "f2", "f3", "s1", "s2", "s3", "s4"];
+
+pub fn err_class(e: &str) -> String {
+    e.split(|c: char| !c.is_ascii_alphabetic()).filter(|w| !w.is_empty()).take(6).collect::<Vec<_>>().join("_").to_lowercase()
+}
+
+fn site_tag(e: &str) -> (String, bool) {
+    let site = crate::report::panic_site(e);
+    let in_repo = site.starts_with("/repo/");
+    (site.rsplit('/').next().unwrap_or("").to_string(), in_repo)
+}
+
+// ---------------------------------------------------------------------------------------------
+// harness state
+// ---------------------------------------------------------------------------------------------
+
+pub struct H {
+    pub ctx: Ctx,
+    scratch: Scratch,
+    db: Option<Db>,
+    dbn: usize,
+    next_id: i64,
+    /// signature -> (occurrences, first example)
+    sigs: BTreeMap<String, (u64, J)>,
+    judged: BTreeMap<String, u64>,
+    np_done: BTreeMap<String, u32>,
+    np_cap: u32,
+}
+
+impl H {
+    fn fresh_db(&mut self) -> bool {
+        self.db = None;
+        self.dbn += 1;
+        let dir = self.scratch.dir(&format!("db{}", self.dbn % 4));
+        match Db::create(&dir) {
+            Ok(mut d) => {
+                let ok = d.exec("CREATE TABLE c (id INT PRIMARY KEY, i1 BIGINT, i2 BIGINT, i3 BIGINT, i4 BIGINT, f1 DOUBLE PRECISION, f2 DOUBLE PRECISION, f3 DOUBLE PRECISION, s1 TEXT, s2 TEXT, s3 TEXT, s4 TEXT)").is_ok()
+                    && d.exec("CREATE TABLE w (id INT PRIMARY KEY, i1 BIGINT, i2 BIGINT, r BIGINT)").is_ok();
+                if !ok {
+                    self.ctx.inconclusive("cannot create the work tables");
+                    return false;
+                }
+                self.db = Some(d);
+                self.next_id = 0;
+                true
+            }
+            Err(e) => {
+                self.ctx.inconclusive(&format!("cannot create database: {}", e));
+                false
+            }
+        }
+    }
+    fn db(&mut self) -> &mut Db {
+        if self.db.is_none() || self.next_id > 4000 {
+            self.fresh_db();
+        }
+        self.db.as_mut().expect("database")
+    }
+    /// one-row one-column query
+    fn q1(&mut self, sql: &str) -> Result<V, String> {
+        let r = self.db().query(sql);
+        self.db().log.clear();
+        match r {
+            Ok(rows) => {
+                if rows.len() == 1 && rows[0].len() == 1 {
+                    Ok(rows[0][0].clone())
+                } else {
+                    Err(format!("SHAPE: {} rows x {} columns", rows.len(), rows.first().map(|r| r.len()).unwrap_or(0)))
+                }
+            }
+            Err(e) => Err(e),
+        }
+    }
+    fn exec(&mut self, sql: &str) -> Result<(), String> {
+        let r = self.db().exec(sql).map(|_| ());
+        self.db().log.clear();
+        r
+    }
+    fn ids(&mut self, sql: &str) -> Result<Vec<i64>, String> {
+        let r = self.db().query(sql);
+        self.db().log.clear();
+        r.map(|rows| rows.iter().map(|r| if let Some(V::Int(i)) = r.first() { *i } else { -1 }).collect())
+    }
+
+    fn record(&mut self, sig: String, assertion: &str, detail: J) {
+        let e = self.sigs.entry(sig.clone()).or_insert((0, detail.clone()));
+        e.0 += 1;
+        self.ctx.violation(assertion, &sig, detail);
+    }
+
+    /// the column path: store the arguments, read them back, evaluate over the columns
+    fn col_path(&mut self, c: &Case) -> Option<(String, Vec<String>, Result<V, String>)> {
+        if c.args.is_empty() {
+            return None;
+        }
+        let names = c.col_names()?;
+        self.db();
+        self.next_id += 1;
+        let id = self.next_id;
+        let mut vals: BTreeMap<&str, String> = BTreeMap::new();
+        for (n, a) in names.iter().zip(&c.args) {
+            vals.insert(C_COLS.iter().find(|x| **x == n.as_str()).unwrap(), ins_lit(a));
+        }
+        let ins = format!("INSERT INTO c VALUES ({}, {})", id, C_COLS.iter().map(|n| vals.get(n).cloned().unwrap_or_else(|| "NULL".into())).collect::<Vec<_>>().join(", "));
+        if self.exec(&ins).is_err() {
+            self.ctx.count("dropped_column_setup", 1);
+            return None;
+        }
+        // read back (storage fidelity is C11's business: a damaged argument drops the case here)
+        let back = self.db().query(&format!("SELECT {} FROM c WHERE id = {}", names.join(", "), id));
+        self.db().log.clear();
+        let same = match &back {
+            Ok(rows) if rows.len() == 1 => rows[0].iter().zip(&c.args).all(|(g, w)| match (g, w) {
+                (V::Float(a), V::Float(b)) => a.to_bits() == b.to_bits(),
+                _ => g.key(false) == w.key(false),
+            }),
+            _ => false,
+        };
+        if !same {
+            self.ctx.count("dropped_column_setup", 1);
+            return None;
+        }
+        let sql = format!("SELECT {} FROM c WHERE id = {}", render(&c.tmpl, &names), id);
+        let got = self.q1(&sql);
+        Some((sql, vec![ins], got))
+    }
+
+    /// classify one observed result: None = fine
+    fn fail_of(c: &Case, got: &Result<V, String>) -> Option<String> {
+        if let Err(e) = got {
+            if is_panic(e) {
+                let (tag, _) = site_tag(e);
+                return Some(format!("panic/{}", tag));
+            }
+        }
+        if accepts(&c.exp, got) {
+            return None;
+        }
+        Some(match got {
+            Err(e) => format!("unexpected_error:{}", err_class(e)),
+            Ok(_) => c.assertion.to_string(),
+        })
+    }
+
+    fn got_json(g: &Result<V, String>) -> J {
+        match g {
+            Ok(v) => json!({"value": v.to_json(), "repr": format!("{:?}", v)}),
+            Err(e) => json!({"error": e}),
+        }
+    }
+
+    /// run one case on both paths, report; returns true if something failed
+    pub fn run_case(&mut self, c: &Case, shrink: bool) -> bool {
+        self.ctx.eval();
+        *self.judged.entry(c.func.clone()).or_insert(0) += 1;
+        let csql = c.const_sql();
+        let g1 = self.q1(&csql);
+        let f1 = Self::fail_of(c, &g1);
+        let col = self.col_path(c);
+        let f2 = col.as_ref().and_then(|(_, _, g)| Self::fail_of(c, g));
+        if !matches!(c.exp, Exp::NoPanic) {
+            self.ctx.nontrivial(fnv(csql.as_bytes()));
+        } else {
+            self.ctx.count("cases_no_panic_only", 1);
+        }
+        if self.ctx.samples.len() < 6 && self.ctx.evaluations % 997 == 5 {
+            self.ctx.sample(json!({"const": csql, "column": col.as_ref().map(|x| x.0.clone()), "expect": format!("{:?}", c.exp), "got_const": Self::got_json(&g1)}));
+        }
+        if f1.is_none() && f2.is_none() {
+            return false;
+        }
+        // one root cause -> one signature: same failure on both paths = no path suffix
+        let (assertion, suffix) = match (&f1, &f2) {
+            (Some(a), Some(b)) if a == b => (a.clone(), ""),
+            (Some(a), None) if col.is_some() => (a.clone(), "/only_const"),
+            (Some(a), None) => (a.clone(), ""),
+            (None, Some(b)) => (b.clone(), "/only_column"),
+            (Some(a), Some(b)) => (format!("{}|column:{}", a, b), ""),
+            _ => unreachable!(),
+        };
+        let mut small = c.clone();
+        if shrink {
+            small = self.shrink(c, f1.is_some(), &assertion);
+        }
+        let sig = format!("C20/{}/{}/{}{}", c.func, c.class, assertion, suffix);
+        let detail = json!({
+            "const_sql": csql, "const_got": Self::got_json(&g1), "const_fail": f1,
+            "column_sql": col.as_ref().map(|x| x.0.clone()), "column_setup": col.as_ref().map(|x| x.1.clone()),
+            "column_got": col.as_ref().map(|x| Self::got_json(&x.2)), "column_fail": f2,
+            "expected": format!("{:?}", c.exp),
+            "minimal_const_sql": small.const_sql(), "minimal_expected": format!("{:?}", small.exp),
+        });
+        self.record(sig, c.assertion, detail);
+        true
+    }
+
+    /// shrink text arguments (drop characters) and integers (towards 0) keeping the same failure
+    fn shrink(&mut self, c: &Case, on_const: bool, assertion: &str) -> Case {
+        let mut best = c.clone();
+        let mut budget = 60;
+        let mut progress = true;
+        while progress && budget > 0 {
+            progress = false;
+            'outer: for ai in 0..best.args.len() {
+                let cands: Vec<V> = match &best.args[ai] {
+                    V::Text(s) => {
+                        let ch: Vec<char> = s.chars().collect();
+                        (0..ch.len()).map(|k| V::Text(ch.iter().enumerate().filter(|(j, _)| *j != k).map(|(_, c)| *c).collect())).collect()
+                    }
+                    _ => vec![],
+                };
+                for cand in cands {
+                    if budget == 0 {
+                        break 'outer;
+                    }
+                    budget -= 1;
+                    let mut args = best.args.clone();
+                    args[ai] = cand;
+                    let nc = match build(best.call, &args, &best.tys) {
+                        Some(n) => n,
+                        None => continue,
+                    };
+                    if nc.class != best.class || nc.assertion != best.assertion {
+                        continue;
+                    }
+                    let fails = if on_const {
+                        let g = self.q1(&nc.const_sql());
+                        Self::fail_of(&nc, &g)
+                    } else {
+                        self.col_path(&nc).and_then(|(_, _, g)| Self::fail_of(&nc, &g))
+                    };
+                    if fails.as_deref() == Some(assertion.split('|').next().unwrap_or(assertion)) || fails.as_deref() == Some(assertion) {
+                        best = nc;
+                        progress = true;
+                        continue 'outer;
+                    }
+                }
+            }
+        }
+        best
+    }
+
+    /// derive the NULL-propagation cases of a (non-NULL) case
+    pub fn run_null_variants(&mut self, c: &Case) {
+        for i in 0..c.args.len() {
+            if !c.np.get(i).copied().unwrap_or(false) || c.args[i].is_null() {
+                continue;
+            }
+            let key = format!("{}/{}/{}", c.func, c.args.len(), i);
+            let n = self.np_done.entry(key).or_insert(0);
+            if *n >= self.np_cap {
+                continue;
+            }
+            *n += 1;
+            let mut nc = c.clone();
+            nc.args[i] = V::Null;
+            nc.exp = Exp::Null;
+            nc.class = format!("null_arg{}", i + 1);
+            nc.assertion = "null_propagation";
+            self.ctx.count("null_propagation_cases", 1);
+            self.run_case(&nc, false);
+        }
+    }
+}
+
+// ---------------------------------------------------------------------------------------------
+// the oracle: definitions written from the README tables / module docs (MySQL semantics)
+// ---------------------------------------------------------------------------------------------
+
+fn canon(call: &str) -> &str {
+    match call {
+        "UCASE" => "UPPER",
+        "LCASE" => "LOWER",
+        "LEN" | "OCTET_LENGTH" => "LENGTH",
+        "CHARACTER_LENGTH" => "CHAR_LENGTH",
+        "SUBSTRING" | "MID" => "SUBSTR",
+        "CEILING" => "CEIL",
+        "POW" => "POWER",
+        "TRUNC" => "TRUNCATE",
+        x => x,
+    }
+}
+
+/// simple 1:1 case mapping (ASCII, Latin-1 letters, Greek without sigma, Cyrillic)
+fn up(c: char) -> char {
+    let u = c as u32;
+    let r = match u {
+        0x61..=0x7a => u - 0x20,
+        0xe0..=0xfe if u != 0xf7 => u - 0x20,
+        0x3b1..=0x3c9 if u != 0x3c2 => u - 0x20,
+        0x430..=0x44f => u - 0x20,
+        0x450..=0x45f => u - 0x50,
+        _ => u,
+    };
+    char::from_u32(r).unwrap_or(c)
+}
+fn low(c: char) -> char {
+    let u = c as u32;
+    let r = match u {
+        0x41..=0x5a => u + 0x20,
+        0xc0..=0xde if u != 0xd7 => u + 0x20,
+        0x391..=0x3a9 if u != 0x3a2 => u + 0x20,
+        0x410..=0x42f => u + 0x20,
+        0x400..=0x40f => u + 0x50,
+        _ => u,
+    };
+    char::from_u32(r).unwrap_or(c)
+}
+fn fold(s: &[char]) -> Vec<char> {
+    s.iter().map(|c| low(*c)).collect()
+}
+fn cs(s: &str) -> Vec<char> {
+    s.chars().collect()
+}
+fn st(v: &[char]) -> String {
+    v.iter().collect()
+}
+fn tx(v: &V) -> Option<Vec<char>> {
+    match v {
+        V::Text(s) => Some(cs(s)),
+        _ => None,
+    }
+}
+fn iv(v: &V) -> Option<i64> {
+    match v {
+        V::Int(i) => Some(*i),
+        _ => None,
+    }
+}
+fn fv(v: &V) -> Option<f64> {
+    match v {
+        V::Int(i) => Some(*i as f64),
+        V::Float(f) => Some(*f),
+        _ => None,
+    }
+}
+/// 1-based position of the first occurrence of `n` in `h` at or after 0-based `from`; 0 if none
+fn find_chars(h: &[char], n: &[char], from: usize) -> i64 {
+    if n.len() > h.len() {
+        return 0;
+    }
+    for s in from..=(h.len() - n.len()) {
+        if &h[s..s + n.len()] == n {
+            return s as i64 + 1;
+        }
+    }
+    0
+}
+fn t(s: String) -> Exp {
+    Exp::Is(V::Text(s))
+}
+fn n(i: i64) -> Exp {
+    Exp::Is(V::Int(i))
+}
+fn fits(x: i128) -> Option<i64> {
+    if x >= i64::MIN as i128 && x <= i64::MAX as i128 {
+        Some(x as i64)
+    } else {
+        None
+    }
+}
+const TWO63: f64 = 9223372036854775808.0;
+const TWO53: i64 = 1 << 53;
+
+fn int_class(xs: &[i64]) -> &'static str {
+    if xs.iter().any(|x| *x == i64::MIN) {
+        "i64_min"
+    } else if xs.iter().any(|x| x.unsigned_abs() > TWO53 as u64) {
+        "int_beyond_2p53"
+    } else {
+        "int"
+    }
+}
+
+/// Build the case (template, expectation, class) for `call(args)`. None = not a generated shape.
+pub fn build(call: &'static str, args: &[V], tys: &[char]) -> Option<Case> {
+    let f = canon(call);
+    let mb = args.iter().any(|a| matches!(a, V::Text(s) if !s.is_ascii()));
+    let mut class = (if mb { "multibyte" } else { "ascii" }).to_string();
+    let mut np = vec![true; args.len()];
+    let mut assertion = "value";
+    let mut tmpl = format!("{}({})", call, (0..args.len()).map(|i| format!("{{{}}}", i)).collect::<Vec<_>>().join(", "));
+    let a0 = args.first();
+    let exp: Exp = match f {
+        // ---- strings -------------------------------------------------------------------------
+        "UPPER" => t(tx(a0?)?.iter().map(|c| up(*c)).collect()),
+        "LOWER" => t(tx(a0?)?.iter().map(|c| low(*c)).collect()),
+        "LENGTH" => n(st(&tx(a0?)?).len() as i64),
+        "CHAR_LENGTH" => n(tx(a0?)?.len() as i64),
+        "REVERSE" => t(tx(a0?)?.iter().rev().collect()),
+        "LEFT" | "RIGHT" => {
+            let s = tx(a0?)?;
+            let k = iv(&args[1])?;
+            let k = k.clamp(0, s.len() as i64) as usize;
+            if f == "LEFT" {
+                t(st(&s[..k]))
+            } else {
+                t(st(&s[s.len() - k..]))
+            }
+        }
+        "SUBSTR" => {
+            let s = tx(a0?)?;
+            let pos = iv(&args[1])?;
+            let len = match args.get(2) {
+                Some(v) => Some(iv(v)?),
+                None => None,
+            };
+            if pos < 0 && (-pos) as usize > s.len() {
+                class.push_str("_pos_before_start");
+                Exp::NoPanic
+            } else {
+                let start = if pos > 0 { (pos - 1) as usize } else if pos < 0 { s.len() - (-pos) as usize } else { usize::MAX };
+                if start == usize::MAX || start >= s.len() {
+                    t(String::new())
+                } else {
+                    let l = match len {
+                        Some(l) if l <= 0 => 0,
+                        Some(l) => (l as usize).min(s.len() - start),
+                        None => s.len() - start,
+                    };
+                    t(st(&s[start..start + l]))
+                }
+            }
+        }
+        "CONCAT" => {
+            np = vec![false; args.len()];
+            if args.iter().any(|a| a.is_null()) {
+                class = "null_arg".into();
+                assertion = "null_propagation";
+                Exp::Null
+            } else {
+                let mut out = String::new();
+                for a in args {
+                    match a {
+                        V::Text(s) => out.push_str(s),
+                        V::Int(i) => out.push_str(&i.to_string()),
+                        _ => return None,
+                    }
+                }
+                t(out)
+            }
+        }
+        "CONCAT_WS" => {
+            np = vec![false; args.len()];
+            np[0] = true;
+            if a0?.is_null() {
+                class = "null_separator".into();
+                assertion = "null_propagation";
+                Exp::Null
+            } else {
+                let sep = st(&tx(a0?)?);
+                let mut parts = vec![];
+                for a in &args[1..] {
+                    match a {
+                        V::Text(s) => parts.push(s.clone()),
+                        V::Int(i) => parts.push(i.to_string()),
+                        V::Null => {
+                            class = "null_args_skipped".into();
+                        }
+                        _ => return None,
+                    }
+                }
+                t(parts.join(&sep))
+            }
+        }
+        "TRIM" | "LTRIM" | "RTRIM" => {
+            // only U+0020 padding is generated (README: "whitespace"; MySQL: spaces)
+            let s = tx(a0?)?;
+            let mut b = 0;
+            let mut e = s.len();
+            if f != "RTRIM" {
+                while b < e && s[b] == ' ' {
+                    b += 1;
+                }
+            }
+            if f != "LTRIM" {
+                while e > b && s[e - 1] == ' ' {
+                    e -= 1;
+                }
+            }
+            t(st(&s[b..e]))
+        }
+        "LPAD" | "RPAD" => {
+            let s = tx(a0?)?;
+            let len = iv(&args[1])?;
+            let pad = tx(&args[2])?;
+            if len < 0 {
+                class = "negative_len".into();
+                Exp::NoPanic
+            } else if pad.is_empty() {
+                class.push_str("_empty_pad");
+                Exp::NoPanic
+            } else {
+                let len = len as usize;
+                if len <= s.len() {
+                    t(st(&s[..len]))
+                } else {
+                    let fill: Vec<char> = (0..len - s.len()).map(|i| pad[i % pad.len()]).collect();
+                    if f == "LPAD" {
+                        t(format!("{}{}", st(&fill), st(&s)))
+                    } else {
+                        t(format!("{}{}", st(&s), st(&fill)))
+                    }
+                }
+            }
+        }
+        "REPLACE" => {
+            let s = tx(a0?)?;
+            let from = tx(&args[1])?;
+            let to = tx(&args[2])?;
+            if from.is_empty() {
+                class.push_str("_empty_from");
+                Exp::NoPanic
+            } else {
+                let mut out: Vec<char> = vec![];
+                let mut i = 0;
+                while i < s.len() {
+                    if i + from.len() <= s.len() && s[i..i + from.len()] == from[..] {
+                        out.extend_from_slice(&to);
+                        i += from.len();
+                    } else {
+                        out.push(s[i]);
+                        i += 1;
+                    }
+                }
+                t(st(&out))
+            }
+        }
+        "REPEAT" => {
+            let s = tx(a0?)?;
+            let k = iv(&args[1])?;
+            if k > 64 {
+                return None;
+            }
+            t(st(&s).repeat(k.max(0) as usize))
+        }
+        "SPACE" => {
+            let k = iv(a0?)?;
+            if k > 64 {
+                return None;
+            }
+            class = "count".into();
+            t(" ".repeat(k.max(0) as usize))
+        }
+        "INSTR" | "LOCATE" | "POSITION" => {
+            let (h, nd) = if f == "INSTR" { (tx(a0?)?, tx(&args[1])?) } else { (tx(&args[1])?, tx(a0?)?) };
+            if f == "POSITION" {
+                tmpl = "POSITION({0} IN {1})".into();
+                class = "in_syntax".into();
+                np = vec![false; 2];
+            }
+            let pos = match args.get(2) {
+                Some(v) => iv(v)?,
+                None => 1,
+            };
+            if nd.is_empty() {
+                class.push_str("_empty_needle");
+                Exp::NoPanic
+            } else if pos < 1 || pos as usize > h.len() {
+                n(0)
+            } else {
+                let r = find_chars(&h, &nd, (pos - 1) as usize);
+                // MySQL's default collation is case-insensitive, TurDB compares bytewise: only judge
+                // searches where both readings agree
+                if find_chars(&fold(&h), &fold(&nd), (pos - 1) as usize) != r {
+                    return None;
+                }
+                n(r)
+            }
+        }
+        "ASCII" => {
+            let s = st(&tx(a0?)?);
+            match s.bytes().next() {
+                None => n(0),
+                Some(b) if b < 0x80 => n(b as i64),
+                Some(_) => {
+                    class = "multibyte_first_char".into();
+                    Exp::NoPanic
+                }
+            }
+        }
+        "STRCMP" => {
+            let a = st(&tx(a0?)?);
+            let b = st(&tx(&args[1])?);
+            if !a.bytes().chain(b.bytes()).all(|c| c.is_ascii_lowercase() || c.is_ascii_digit()) {
+                return None;
+            }
+            n(match a.as_bytes().cmp(b.as_bytes()) {
+                std::cmp::Ordering::Less => -1,
+                std::cmp::Ordering::Equal => 0,
+                std::cmp::Ordering::Greater => 1,
+            })
+        }
+        "INSERT" => {
+            let s = tx(a0?)?;
+            let pos = iv(&args[1])?;
+            let len = iv(&args[2])?;
+            let new = tx(&args[3])?;
+            if len < 0 || pos == s.len() as i64 + 1 {
+                class.push_str("_edge");
+                Exp::NoPanic
+            } else if pos < 1 || pos as usize > s.len() {
+                t(st(&s))
+            } else {
+                let start = (pos - 1) as usize;
+                let end = (start + len as usize).min(s.len());
+                t(format!("{}{}{}", st(&s[..start]), st(&new), st(&s[end..])))
+            }
+        }
+        "SUBSTRING_INDEX" => {
+            let s = tx(a0?)?;
+            let d = tx(&args[1])?;
+            let k = iv(&args[2])?;
+            if d.len() != 1 {
+                return None;
+            }
+            let parts: Vec<Vec<char>> = s.split(|c| *c == d[0]).map(|p| p.to_vec()).collect();
+            let dl = st(&d);
+            let joined = |ps: &[Vec<char>]| ps.iter().map(|p| st(p)).collect::<Vec<_>>().join(&dl);
+            if k > 0 {
+                t(joined(&parts[..(k as usize).min(parts.len())]))
+            } else if k < 0 {
+                let skip = parts.len().saturating_sub((-k) as usize);
+                t(joined(&parts[skip..]))
+            } else {
+                t(String::new())
+            }
+        }
+        "FIELD" => {
+            np = vec![false; args.len()];
+            let s = tx(a0?)?;
+            let mut r = 0;
+            for (i, a) in args[1..].iter().enumerate() {
+                let x = tx(a)?;
+                if x == s {
+                    r = i as i64 + 1;
+                    break;
+                }
+                if fold(&x) == fold(&s) {
+                    return None;
+                }
+            }
+            n(r)
+        }
+        "FIND_IN_SET" => {
+            let s = st(&tx(a0?)?);
+            let l = st(&tx(&args[1])?);
+            if s.contains(',') {
+                return None;
+            }
+            let mut r = 0;
+            for (i, item) in l.split(',').enumerate() {
+                if item == s {
+                    r = i as i64 + 1;
+                    break;
+                }
+                if fold(&cs(item)) == fold(&cs(&s)) {
+                    return None;
+                }
+            }
+            n(r)
+        }
+        "FORMAT" => {
+            class = "number".into();
+            Exp::NoPanic
+        }
+        // ---- numeric -------------------------------------------------------------------------
+        "ABS" => match a0? {
+            V::Int(i) => {
+                class = int_class(&[*i]).into();
+                match fits((*i as i128).abs()) {
+                    Some(r) => n(r),
+                    None => {
+                        assertion = "no_wrap";
+                        Exp::NullOrErr
+                    }
+                }
+            }
+            V::Float(x) => {
+                class = "float".into();
+                Exp::Near(x.abs(), 0.0)
+            }
+            _ => return None,
+        },
+        "SIGN" => {
+            let s = match a0? {
+                V::Int(i) => {
+                    class = int_class(&[*i]).into();
+                    i.signum()
+                }
+                V::Float(x) => {
+                    class = "float".into();
+                    if *x > 0.0 {
+                        1
+                    } else if *x < 0.0 {
+                        -1
+                    } else {
+                        0
+                    }
+                }
+                _ => return None,
+            };
+            n(s)
+        }
+        "MOD" | "DIV" => match (a0?, &args[1]) {
+            (V::Int(a), V::Int(b)) => {
+                class = (if int_class(&[*a, *b]) == "int" { "int" } else { "int_beyond_2p53" }).into();
+                if *b == 0 {
+                    class = "zero_divisor".into();
+                    assertion = "div_zero";
+                    Exp::NullOrErr
+                } else {
+                    let r = if f == "MOD" { (*a as i128) % (*b as i128) } else { (*a as i128) / (*b as i128) };
+                    match fits(r) {
+                        Some(r) => n(r),
+                        None => {
+                            class = "i64_min_by_minus_one".into();
+                            assertion = "no_wrap";
+                            Exp::NullOrErr
+                        }
+                    }
+                }
+            }
+            (x, y) if f == "MOD" => {
+                let (x, y) = (fv(x)?, fv(y)?);
+                class = "float".into();
+                if y == 0.0 {
+                    class = "zero_divisor".into();
+                    assertion = "div_zero";
+                    Exp::NullOrErr
+                } else {
+                    Exp::Near(x % y, 1e-12)
+                }
+            }
+            _ => return None,
+        },
+        "CEIL" | "FLOOR" => match a0? {
+            V::Int(i) => {
+                class = int_class(&[*i]).into();
+                n(*i)
+            }
+            V::Float(x) => {
+                let r = if f == "CEIL" { x.ceil() } else { x.floor() };
+                if r.abs() < TWO63 {
+                    class = "float".into();
+                    n(r as i64)
+                } else {
+                    class = "float_beyond_i64".into();
+                    Exp::OneOf(vec![Exp::Near(r, 0.0), Exp::NullOrErr])
+                }
+            }
+            _ => return None,
+        },
+        "ROUND" | "TRUNCATE" => {
+            let d = match args.get(1) {
+                Some(v) => iv(v)?,
+                None => 0,
+            };
+            if f == "TRUNCATE" && args.len() < 2 {
+                return None;
+            }
+            match a0? {
+                V::Int(i) => {
+                    // TurDB routes integers through f64 here: |i| * 10^d must stay below 2^53 to survive that
+                    class = (if i.unsigned_abs() >= 1 << 32 {
+                        "large_int"
+                    } else if d < 0 {
+                        "int_negative_digits"
+                    } else {
+                        "int"
+                    })
+                    .into();
+                    if d.abs() > 30 {
+                        class = "scale_overflow".into();
+                    }
+                    if d >= 0 {
+                        n(*i)
+                    } else if -d > 30 {
+                        n(0)
+                    } else {
+                        let p = 10i128.pow((-d) as u32);
+                        let x = *i as i128;
+                        let q = x / p;
+                        let rem = (x % p).abs();
+                        let r = if f == "TRUNCATE" {
+                            Some(q * p)
+                        } else if 2 * rem == p {
+                            None // tie: rounding mode not pinned by the README
+                        } else if 2 * rem > p {
+                            Some((q + x.signum()) * p)
+                        } else {
+                            Some(q * p)
+                        };
+                        match r {
+                            None => {
+                                class.push_str("_tie");
+                                Exp::NoPanic
+                            }
+                            Some(r) => match fits(r) {
+                                Some(r) => n(r),
+                                None => Exp::OneOf(vec![Exp::Near(r as f64, 1e-12), Exp::NullOrErr]),
+                            },
+                        }
+                    }
+                }
+                V::Float(x) => {
+                    class = "float".into();
+                    if d.abs() > 30 || !(x * 10f64.powi(d.clamp(0, 30) as i32)).is_finite() {
+                        class = "scale_overflow".into();
+                    }
+                    let want: Option<f64> = if d > 30 {
+                        Some(*x)
+                    } else if d < -30 {
+                        Some(0.0)
+                    } else {
+                        let m = 10f64.powi(d.unsigned_abs() as i32);
+                        let y = if d >= 0 { x * m } else { x / m };
+                        if !y.is_finite() || y.abs() >= 4503599627370496.0 {
+                            Some(*x)
+                        } else {
+                            let fr = y.abs() - y.abs().floor();
+                            let undecided = if f == "ROUND" { (fr - 0.5).abs() < 1e-6 } else { !(1e-6..=1.0 - 1e-6).contains(&fr) && fr != 0.0 };
+                            if undecided {
+                                None
+                            } else {
+                                let r = if f == "ROUND" { y.round() } else { y.trunc() };
+                                Some(if d >= 0 { r / m } else { r * m })
+                            }
+                        }
+                    };
+                    match want {
+                        None => {
+                            class.push_str("_boundary");
+                            Exp::NoPanic
+                        }
+                        Some(w) => {
+                            if w.abs() >= TWO63 && d <= 0 {
+                                class = "float_beyond_i64".into();
+                                Exp::OneOf(vec![Exp::Near(w, 1e-12), Exp::NullOrErr])
+                            } else {
+                                Exp::Near(w, 1e-9)
+                            }
+                        }
+                    }
+                }
+                _ => return None,
+            }
+        }
+        "SQRT" => {
+            let x = fv(a0?)?;
+            class = "number".into();
+            if x < 0.0 {
+                class = "negative".into();
+                assertion = "domain";
+                Exp::NullOrErr
+            } else {
+                Exp::Near(x.sqrt(), 1e-14)
+            }
+        }
+        "POWER" => {
+            let (x, y) = (fv(a0?)?, fv(&args[1])?);
+            class = "number".into();
+            let r = x.powf(y);
+            if r.is_nan() || (x == 0.0 && y < 0.0) {
+                class = "domain".into();
+                Exp::NoPanic
+            } else if r.is_infinite() {
+                class = "overflow".into();
+                assertion = "overflow";
+                Exp::InfOrNullOrErr
+            } else if let (V::Int(b), V::Int(e)) = (a0?, &args[1]) {
+                // exact when the integer power is exactly representable
+                let mut p: i128 = 1;
+                let mut ok = *e >= 0 && *e < 64;
+                if ok {
+                    for _ in 0..*e {
+                        p *= *b as i128;
+                        if p.abs() > TWO53 as i128 {
+                            ok = false;
+                            break;
+                        }
+                    }
+                }
+                if ok {
+                    n(p as i64)
+                } else {
+                    Exp::Near(r, 1e-12)
+                }
+            } else {
+                Exp::Near(r, 1e-12)
+            }
+        }
+        "EXP" => {
+            let r = fv(a0?)?.exp();
+            class = "number".into();
+            if r.is_infinite() {
+                class = "overflow".into();
+                assertion = "overflow";
+                Exp::InfOrNullOrErr
+            } else {
+                Exp::Near(r, 1e-12)
+            }
+        }
+        "LN" | "LOG" | "LOG10" | "LOG2" => {
+            class = "number".into();
+            if args.len() == 2 {
+                let (b, x) = (fv(a0?)?, fv(&args[1])?);
+                if b <= 0.0 || b == 1.0 || x <= 0.0 {
+                    class = "domain".into();
+                    assertion = "domain";
+                    Exp::NullOrErr
+                } else {
+                    Exp::Near(x.ln() / b.ln(), 1e-12)
+                }
+            } else {
+                let x = fv(a0?)?;
+                if x <= 0.0 {
+                    class = if x == 0.0 { "zero".into() } else { "negative".into() };
+                    assertion = "domain";
+                    Exp::NullOrErr
+                } else {
+                    let r = match f {
+                        "LOG10" => x.log10(),
+                        "LOG2" => x.log2(),
+                        _ => x.ln(),
+                    };
+                    if r == 0.0 {
+                        Exp::Near(0.0, 0.0)
+                    } else {
+                        Exp::Near(r, 1e-12)
+                    }
+                }
+            }
+        }
+        "SIN" | "COS" | "TAN" | "ATAN" | "ASIN" | "ACOS" | "DEGREES" | "RADIANS" => {
+            let x = fv(a0?)?;
+            class = "number".into();
+            if matches!(f, "ASIN" | "ACOS") && !(-1.0..=1.0).contains(&x) {
+                class = "domain".into();
+                assertion = "domain";
+                Exp::NullOrErr
+            } else {
+                let r = match f {
+                    "SIN" => x.sin(),
+                    "COS" => x.cos(),
+                    "TAN" => x.tan(),
+                    "ATAN" => x.atan(),
+                    "ASIN" => x.asin(),
+                    "ACOS" => x.acos(),
+                    "DEGREES" => x * 180.0 / std::f64::consts::PI,
+                    _ => x * std::f64::consts::PI / 180.0,
+                };
+                if r.abs() < 1e-9 {
+                    Exp::NoPanic
+                } else {
+                    Exp::Near(r, 1e-11)
+                }
+            }
+        }
+        "ATAN2" => {
+            class = "number".into();
+            Exp::Near(fv(a0?)?.atan2(fv(&args[1])?), 1e-11)
+        }
+        "PI" => {
+            class = "none".into();
+            Exp::Near(std::f64::consts::PI, 1e-15)
+        }
+        "RAND" => {
+            class = if args.is_empty() { "none".into() } else { "seed".into() };
+            np = vec![false; args.len()];
+            Exp::Unit01
+        }
+        "GREATEST" | "LEAST" => {
+            np = vec![false; args.len()];
+            let nn: Vec<&V> = args.iter().filter(|a| !a.is_null()).collect();
+            let has_null = nn.len() != args.len();
+            let best: Exp = if nn.is_empty() {
+                Exp::Null
+            } else if nn.iter().all(|a| matches!(a, V::Int(_))) {
+                let xs: Vec<i64> = nn.iter().map(|a| iv(a).unwrap()).collect();
+                class = int_class(&xs).into();
+                n(if f == "GREATEST" { *xs.iter().max().unwrap() } else { *xs.iter().min().unwrap() })
+            } else if nn.iter().all(|a| matches!(a, V::Float(_))) {
+                class = "float".into();
+                let xs: Vec<f64> = nn.iter().map(|a| fv(a).unwrap()).collect();
+                Exp::Near(xs.iter().cloned().fold(if f == "GREATEST" { f64::NEG_INFINITY } else { f64::INFINITY }, |m, x| if f == "GREATEST" { m.max(x) } else { m.min(x) }), 0.0)
+            } else if nn.iter().all(|a| matches!(a, V::Text(s) if s.bytes().all(|c| c.is_ascii_lowercase()))) {
+                class = "text".into();
+                let xs: Vec<String> = nn.iter().map(|a| st(&tx(a).unwrap())).collect();
+                t(if f == "GREATEST" { xs.iter().max().unwrap().clone() } else { xs.iter().min().unwrap().clone() })
+            } else {
+                return None;
+            };
+            if has_null {
+                // MySQL: NULL if any argument is NULL; PostgreSQL: NULLs ignored. README: "Maximum value".
+                class = "with_null".into();
+                Exp::OneOf(vec![Exp::Null, best])
+            } else {
+                best
+            }
+        }
+        // ---- control flow --------------------------------------------------------------------
+        "IF" => {
+            np = vec![false; 3];
+            class = match a0? {
+                V::Null => "null_condition",
+                _ => "condition",
+            }
+            .into();
+            let c = match a0? {
+                V::Null => false,
+                V::Int(i) => *i != 0,
+                _ => return None,
+            };
+            Exp::Is(if c { args[1].clone() } else { args[2].clone() })
+        }
+        "IFNULL" => {
+            np = vec![false; 2];
+            class = if a0?.is_null() { "null_first".into() } else { "value_first".into() };
+            Exp::Is(if a0?.is_null() { args[1].clone() } else { args[0].clone() })
+        }
+        "NULLIF" => {
+            np = vec![false; 2];
+            let (a, b) = (a0?, &args[1]);
+            class = if a.is_null() {
+                "null_first".into()
+            } else if b.is_null() {
+                "null_second".into()
+            } else {
+                "values".into()
+            };
+            let eq = match (a, b) {
+                (V::Int(x), V::Int(y)) => x == y,
+                (V::Text(x), V::Text(y)) => {
+                    if x != y && fold(&cs(x)) == fold(&cs(y)) {
+                        return None;
+                    }
+                    x == y
+                }
+                (V::Null, _) | (_, V::Null) => false,
+                _ => return None,
+            };
+            Exp::Is(if eq { V::Null } else { a.clone() })
+        }
+        "COALESCE" => {
+            np = vec![false; args.len()];
+            class = format!("{}_leading_nulls", args.iter().take_while(|a| a.is_null()).count().min(3));
+            Exp::Is(args.iter().find(|a| !a.is_null()).cloned().unwrap_or(V::Null))
+        }
+        "ISNULL" => {
+            np = vec![false; 1];
+            class = "any".into();
+            n(a0?.is_null() as i64)
+        }
+        _ => return None,
+    };
+    Some(Case { func: f.to_string(), class, tmpl, args: args.to_vec(), tys: tys.to_vec(), exp, assertion, np, call })
+}
+
+// ---------------------------------------------------------------------------------------------
+// generators
+// ---------------------------------------------------------------------------------------------
+
+const ASCII_POOL: &[char] = &['a', 'b', 'c', 'x', 'A', 'B', 'Z', 'm', '0', '7', ' ', '-', '.', ','];
+const MB_POOL: &[char] = &['é', 'É', 'ü', 'Ü', 'ñ', 'я', 'Я', 'ж', 'λ', 'Ω', '漢', '字', '€', '😀', '𝄞', 'ß'];
+/// multi-byte characters with a simple 1:1 case mapping or none (for UPPER/LOWER)
+const MB_CASE_POOL: &[char] = &['é', 'É', 'ü', 'Ü', 'ñ', 'Ñ', 'я', 'Я', 'ж', 'Ж', 'λ', 'Λ', 'ω', 'Ω', '漢', '€', '😀'];
+
+fn gen_str_from(rng: &mut Rng, maxlen: usize, pools: &[&[char]]) -> String {
+    // a small per-string alphabet so that substrings repeat
+    let k = rng.usize(1, 4);
+    let mut al = vec![];
+    for _ in 0..k {
+        let p = *rng.pick(pools);
+        al.push(*rng.pick(p));
+    }
+    let l = rng.usize(0, maxlen);
+    (0..l).map(|_| *rng.pick(&al)).collect()
+}
+fn gen_str(rng: &mut Rng, maxlen: usize) -> String {
+    match rng.below(3) {
+        0 => gen_str_from(rng, maxlen, &[ASCII_POOL]),
+        1 => gen_str_from(rng, maxlen, &[MB_POOL]),
+        _ => gen_str_from(rng, maxlen, &[ASCII_POOL, MB_POOL]),
+    }
+}
+fn gen_word(rng: &mut Rng, maxlen: usize) -> String {
+    // no spaces/commas: for lists and trimming cores
+    let s = gen_str(rng, maxlen);
+    s.chars().filter(|c| *c != ' ' && *c != ',').collect()
+}
+fn sub_of(rng: &mut Rng, s: &str, maxlen: usize) -> String {
+    let ch = cs(s);
+    if ch.is_empty() || rng.chance(1, 4) {
+        return gen_str(rng, maxlen.max(1));
+    }
+    let a = rng.usize(0, ch.len() - 1);
+    let l = rng.usize(1, maxlen.max(1)).min(ch.len() - a);
+    st(&ch[a..a + l])
+}
+
+const INT_EDGES: &[i64] = &[
+    0,
+    1,
+    -1,
+    2,
+    -2,
+    10,
+    -10,
+    i64::MAX,
+    i64::MIN,
+    i64::MAX - 1,
+    i64::MIN + 1,
+    1 << 31,
+    -(1 << 31),
+    1 << 32,
+    3037000499,
+    3037000500,
+    -3037000500,
+    1 << 62,
+    -(1 << 62),
+    (1 << 53) + 1,
+    -((1 << 53) + 1),
+    4611686018427387904,
+    4611686018427387905,
+    9007199254740993,
+    1000000007,
+];
+fn gen_int(rng: &mut Rng) -> i64 {
+    match rng.below(6) {
+        0 | 1 => *rng.pick(INT_EDGES),
+        2 => rng.range(-20, 20),
+        3 => rng.range(-100000, 100000),
+        4 => rng.next() as i64,
+        _ => {
+            // near a boundary
+            let b = *rng.pick(&[i64::MAX, i64::MIN, 1 << 53, -(1 << 53), 1 << 62]);
+            b.saturating_add(rng.range(-3, 3))
+        }
+    }
+}
+fn gen_small_int(rng: &mut Rng) -> i64 {
+    if rng.chance(1, 2) {
+        rng.range(-12, 12)
+    } else {
+        rng.range(-100000, 100000)
+    }
+}
+const FLOAT_EDGES: &[f64] = &[0.0, -0.0, 1.0, -1.0, 0.5, -0.5, 2.5, -2.5, 1e-7, 1.5e15, 9007199254740992.0, 9.3e18, -9.3e18, 1e19, -1e19, 1e300, -1e300, 1.7e308, 123456.789, -0.001];
+fn gen_float(rng: &mut Rng) -> f64 {
+    match rng.below(5) {
+        0 => *rng.pick(FLOAT_EDGES),
+        1 => rng.range(-80, 80) as f64 / 8.0,
+        2 => {
+            // a short decimal
+            let s = format!("{}.{:03}", rng.range(-999, 999), rng.below(1000));
+            s.parse().unwrap()
+        }
+        3 => (rng.f64() - 0.5) * 10f64.powi(rng.range(-3, 20) as i32),
+        _ => rng.range(-1000, 1000) as f64,
+    }
+}
+fn gen_moderate_float(rng: &mut Rng) -> f64 {
+    match rng.below(3) {
+        0 => rng.range(-80, 80) as f64 / 8.0,
+        1 => format!("{}.{:02}", rng.range(-99, 99), rng.below(100)).parse().unwrap(),
+        _ => rng.range(-30, 30) as f64,
+    }
+}
+
+fn ty_of(v: &V, dflt: char) -> char {
+    match v {
+        V::Int(_) | V::Bool(_) => 'i',
+        V::Float(_) => 'f',
+        V::Text(_) => 's',
+        _ => dflt,
+    }
+}
+fn mk(call: &'static str, args: Vec<V>, dflt: &str) -> Option<Case> {
+    let d: Vec<char> = dflt.chars().collect();
+    let tys: Vec<char> = args.iter().enumerate().map(|(i, a)| ty_of(a, *d.get(i).or(d.last()).unwrap_or(&'s'))).collect();
+    build(call, &args, &tys)
+}
+fn tv(s: String) -> V {
+    V::Text(s)
+}
+
+const STRING_FUNCS: &[&str] = &[
+    "UPPER", "UCASE", "LOWER", "LCASE", "LENGTH", "LEN", "OCTET_LENGTH", "CHAR_LENGTH", "CHARACTER_LENGTH", "REVERSE", "TRIM", "LTRIM", "RTRIM", "ASCII", "LEFT", "RIGHT", "SUBSTR", "SUBSTRING", "MID", "SUBSTR2", "CONCAT",
+    "CONCAT_WS", "LPAD", "RPAD", "REPLACE", "REPEAT", "SPACE", "INSTR", "LOCATE", "LOCATE3", "POSITION", "STRCMP", "INSERT", "SUBSTRING_INDEX", "FIELD", "FIND_IN_SET", "FORMAT",
+];
+
+fn gen_string_case(rng: &mut Rng, which: &'static str) -> Option<Case> {
+    let s = gen_str(rng, 9);
+    let len = cs(&s).len() as i64;
+    match which {
+        "UPPER" | "UCASE" | "LOWER" | "LCASE" => {
+            let s = match rng.below(3) {
+                0 => gen_str_from(rng, 9, &[ASCII_POOL]),
+                1 => gen_str_from(rng, 9, &[MB_CASE_POOL]),
+                _ => gen_str_from(rng, 9, &[ASCII_POOL, MB_CASE_POOL]),
+            };
+            mk(which, vec![tv(s)], "s")
+        }
+        "LENGTH" | "LEN" | "OCTET_LENGTH" | "CHAR_LENGTH" | "CHARACTER_LENGTH" | "REVERSE" | "ASCII" => mk(which, vec![tv(s)], "s"),
+        "TRIM" | "LTRIM" | "RTRIM" => {
+            let core = gen_str(rng, 6);
+            let core = core.trim_matches(' ').to_string();
+            let s = format!("{}{}{}", " ".repeat(rng.usize(0, 3)), core, " ".repeat(rng.usize(0, 3)));
+            mk(which, vec![tv(s)], "s")
+        }
+        "LEFT" | "RIGHT" => mk(which, vec![tv(s), V::Int(rng.range(-2, len + 3))], "si"),
+        "SUBSTR" | "SUBSTRING" | "MID" => mk(which, vec![tv(s), V::Int(rng.range(-len, len + 2)), V::Int(rng.range(-1, len + 2))], "sii"),
+        "SUBSTR2" => mk(if rng.chance(1, 2) { "SUBSTR" } else { "SUBSTRING" }, vec![tv(s), V::Int(rng.range(-len - 1, len + 2))], "si"),
+        "CONCAT" => {
+            let k = rng.usize(1, 4);
+            let mut args = vec![];
+            let mut d = String::new();
+            for _ in 0..k {
+                match rng.below(8) {
+                    0 => {
+                        args.push(V::Null);
+                        d.push('s');
+                    }
+                    1 | 2 => {
+                        args.push(V::Int(gen_small_int(rng)));
+                        d.push('i');
+                    }
+                    _ => {
+                        args.push(tv(gen_str(rng, 5)));
+                        d.push('s');
+                    }
+                }
+            }
+            mk("CONCAT", args, &d)
+        }
+        "CONCAT_WS" => {
+            let k = rng.usize(1, 3);
+            let mut args = vec![if rng.chance(1, 12) { V::Null } else { tv(gen_str(rng, 2)) }];
+            for _ in 0..k {
+                args.push(match rng.below(5) {
+                    0 => V::Null,
+                    _ => tv(gen_str(rng, 4)),
+                });
+            }
+            mk("CONCAT_WS", args, "ssss")
+        }
+        "LPAD" | "RPAD" => {
+            // negative lengths: LPAD only (RPAD(.., -1, ..) does not terminate; see the subprocess group)
+            let l = if which == "LPAD" && rng.chance(1, 25) { -1 } else { rng.range(0, len + 6) };
+            let pad = if rng.chance(1, 20) { String::new() } else { gen_str(rng, 3) };
+            mk(which, vec![tv(s), V::Int(l), tv(pad)], "sis")
+        }
+        "REPLACE" => {
+            let from = sub_of(rng, &s, 2);
+            mk(which, vec![tv(s), tv(from), tv(gen_str(rng, 3))], "sss")
+        }
+        "REPEAT" => mk(which, vec![tv(gen_str(rng, 4)), V::Int(rng.range(-1, 5))], "si"),
+        "SPACE" => mk(which, vec![V::Int(rng.range(-1, 6))], "i"),
+        "INSTR" => {
+            let nd = sub_of(rng, &s, 3);
+            mk(which, vec![tv(s), tv(nd)], "ss")
+        }
+        "LOCATE" | "POSITION" => {
+            let nd = sub_of(rng, &s, 3);
+            mk(which, vec![tv(nd), tv(s)], "ss")
+        }
+        "LOCATE3" => {
+            let nd = sub_of(rng, &s, 2);
+            mk("LOCATE", vec![tv(nd), tv(s), V::Int(rng.range(0, len + 2))], "ssi")
+        }
+        "STRCMP" => {
+            let al = ['a', 'b', 'c', 'z', '0', '9'];
+            let g = |rng: &mut Rng| -> String { (0..rng.usize(0, 4)).map(|_| *rng.pick(&al)).collect() };
+            let a = g(rng);
+            let b = if rng.chance(1, 4) { a.clone() } else { g(rng) };
+            mk(which, vec![tv(a), tv(b)], "ss")
+        }
+        "INSERT" => mk(which, vec![tv(s), V::Int(rng.range(-1, len + 3)), V::Int(rng.range(0, len + 3)), tv(gen_str(rng, 3))], "siis"),
+        "SUBSTRING_INDEX" => {
+            let d = if len > 0 && rng.chance(3, 4) { cs(&s)[rng.usize(0, len as usize - 1)].to_string() } else { ".".to_string() };
+            mk(which, vec![tv(s), tv(d), V::Int(rng.range(-4, 4))], "ssi")
+        }
+        "FIELD" => {
+            let k = rng.usize(1, 3);
+            let mut args = vec![tv(s.clone())];
+            for _ in 0..k {
+                args.push(if rng.chance(1, 3) { tv(s.clone()) } else { tv(gen_str(rng, 4)) });
+            }
+            mk(which, args, "ssss")
+        }
+        "FIND_IN_SET" => {
+            let w = gen_word(rng, 3);
+            let k = rng.usize(0, 4);
+            let items: Vec<String> = (0..k).map(|_| if rng.chance(1, 3) { w.clone() } else { gen_word(rng, 3) }).collect();
+            mk(which, vec![tv(w), tv(items.join(","))], "ss")
+        }
+        "FORMAT" => mk(which, vec![V::Float(gen_float(rng)), V::Int(rng.range(-1, 4))], "fi"),
+        _ => None,
+    }
+}
+
+const NUMERIC_FUNCS: &[&str] = &[
+    "ABS", "ABSF", "SIGN", "SIGNF", "MOD", "MODF", "DIV", "CEIL", "CEILING", "FLOOR", "CEILI", "ROUND1", "ROUND", "ROUNDI", "TRUNCATE", "TRUNCATEI", "SQRT", "POW", "POWER", "EXP", "LN", "LOG", "LOGB", "LOG10", "LOG2", "SIN", "COS",
+    "TAN", "ATAN", "ASIN", "ACOS", "ATAN2", "DEGREES", "RADIANS", "PI", "RAND", "GREATEST", "LEAST",
+];
+
+fn gen_numeric_case(rng: &mut Rng, which: &'static str) -> Option<Case> {
+    let digits = |rng: &mut Rng| -> i64 {
+        match rng.below(10) {
+            0 => *rng.pick(&[400, -400, 31, -31]),
+            1 | 2 | 3 => rng.range(-4, -1),
+            _ => rng.range(0, 6),
+        }
+    };
+    match which {
+        "ABS" => mk("ABS", vec![V::Int(gen_int(rng).max(i64::MIN + 1))], "i"), // i64::MIN: arithmetic group
+        "ABSF" => mk("ABS", vec![V::Float(gen_float(rng))], "f"),
+        "SIGN" => mk("SIGN", vec![V::Int(gen_int(rng))], "i"),
+        "SIGNF" => mk("SIGN", vec![V::Float(gen_float(rng))], "f"),
+        "MOD" | "DIV" => {
+            let b = if rng.chance(1, 6) { 0 } else if rng.chance(1, 2) { rng.range(-9, 9) } else { gen_int(rng) };
+            mk(which, vec![V::Int(gen_int(rng)), V::Int(b)], "ii")
+        }
+        "MODF" => {
+            let b = if rng.chance(1, 8) { 0.0 } else { gen_moderate_float(rng) };
+            mk("MOD", vec![V::Float(gen_moderate_float(rng)), V::Float(b)], "ff")
+        }
+        "CEIL" | "CEILING" | "FLOOR" => mk(which, vec![V::Float(gen_float(rng))], "f"),
+        "CEILI" => mk(if rng.chance(1, 2) { "CEIL" } else { "FLOOR" }, vec![V::Int(gen_int(rng))], "i"),
+        "ROUND1" => {
+            if rng.chance(1, 2) {
+                mk("ROUND", vec![V::Float(gen_float(rng))], "f")
+            } else {
+                mk("ROUND", vec![V::Int(gen_int(rng))], "i")
+            }
+        }
+        "ROUND" | "TRUNCATE" => mk(which, vec![V::Float(gen_float(rng)), V::Int(digits(rng))], "fi"),
+        "ROUNDI" => mk("ROUND", vec![V::Int(gen_int(rng)), V::Int(digits(rng))], "ii"),
+        "TRUNCATEI" => mk("TRUNCATE", vec![V::Int(gen_int(rng)), V::Int(digits(rng))], "ii"),
+        "SQRT" | "EXP" | "LN" | "LOG" | "LOG10" | "LOG2" => {
+            let x = match rng.below(5) {
+                0 => V::Int(0),
+                1 => V::Int(rng.range(-5, 1000)),
+                2 => V::Float(gen_float(rng)),
+                3 => V::Float(gen_moderate_float(rng).abs() + 0.125),
+                _ => V::Int(*rng.pick(&[1, 2, 4, 8, 10, 100, 1000, -1])),
+            };
+            mk(which, vec![x], "f")
+        }
+        "LOGB" => {
+            let b = *rng.pick(&[2.0, 10.0, 0.5, 3.0, 1.0, 0.0, -2.0]);
+            let x = if rng.chance(1, 6) { 0.0 } else { gen_moderate_float(rng).abs() + 0.25 };
+            mk("LOG", vec![V::Float(b), V::Float(x)], "ff")
+        }
+        "POW" | "POWER" => {
+            if rng.chance(1, 2) {
+                mk(which, vec![V::Int(rng.range(-12, 12)), V::Int(rng.range(-3, 20))], "ii")
+            } else {
+                let e = if rng.chance(1, 5) { 400.0 } else { gen_moderate_float(rng) };
+                mk(which, vec![V::Float(gen_moderate_float(rng)), V::Float(e)], "ff")
+            }
+        }
+        "SIN" | "COS" | "TAN" | "ATAN" | "DEGREES" | "RADIANS" => mk(which, vec![V::Float(gen_moderate_float(rng))], "f"),
+        "ASIN" | "ACOS" => {
+            let x = if rng.chance(1, 4) { *rng.pick(&[2.0, -1.5, 1.0000001]) } else { rng.range(-8, 8) as f64 / 8.0 };
+            mk(which, vec![V::Float(x)], "f")
+        }
+        "ATAN2" => mk(which, vec![V::Float(gen_moderate_float(rng)), V::Float(gen_moderate_float(rng))], "ff"),
+        "PI" => mk("PI", vec![], ""),
+        "RAND" => {
+            if rng.chance(1, 2) {
+                mk("RAND", vec![], "")
+            } else {
+                mk("RAND", vec![V::Int(gen_int(rng))], "i")
+            }
+        }
+        "GREATEST" | "LEAST" => {
+            let k = rng.usize(2, 4);
+            let kind = rng.below(3);
+            let mut d = String::new();
+            let mut args = vec![];
+            for _ in 0..k {
+                let (v, c) = match kind {
+                    0 => (V::Int(gen_int(rng)), 'i'),
+                    1 => (V::Float(gen_float(rng)), 'f'),
+                    _ => (tv((0..rng.usize(0, 3)).map(|_| *rng.pick(&['a', 'b', 'z'])).collect()), 's'),
+                };
+                d.push(c);
+                args.push(if rng.chance(1, 10) { V::Null } else { v });
+            }
+            mk(which, args, &d)
+        }
+        _ => None,
+    }
+}
+
+// ---------------------------------------------------------------------------------------------
+// directly built cases: CAST, CASE, IF over comparisons, dates, system functions, float arithmetic
+// ---------------------------------------------------------------------------------------------
+
+fn direct(func: &str, class: &str, tmpl: &str, args: Vec<V>, dflt: &str, exp: Exp, assertion: &'static str, np: Vec<bool>) -> Case {
+    let d: Vec<char> = dflt.chars().collect();
+    let tys: Vec<char> = args.iter().enumerate().map(|(i, a)| ty_of(a, *d.get(i).or(d.last()).unwrap_or(&'s'))).collect();
+    Case { func: func.into(), class: class.into(), tmpl: tmpl.into(), args, tys, exp, assertion, np, call: "" }
+}
+
+fn gen_cast_case(rng: &mut Rng) -> Case {
+    let int_ty = *rng.pick(&["INT", "INTEGER", "BIGINT"]);
+    let flt_ty = *rng.pick(&["DOUBLE PRECISION", "REAL"]);
+    let txt_ty = *rng.pick(&["TEXT", "VARCHAR(64)"]);
+    match rng.below(11) {
+        0 => {
+            let i = gen_int(rng);
+            direct("CAST", "int_to_int", &format!("CAST({{0}} AS {})", "BIGINT"), vec![V::Int(i)], "i", n(i), "value", vec![true])
+        }
+        1 => {
+            let i = gen_int(rng);
+            direct("CAST", "int_to_text", &format!("CAST({{0}} AS {})", txt_ty), vec![V::Int(i)], "i", t(i.to_string()), "value", vec![true])
+        }
+        2 => {
+            let i = gen_int(rng);
+            // nearest double (Rust `as` rounds to nearest, the IEEE definition)
+            direct("CAST", if i.unsigned_abs() > TWO53 as u64 { "int_beyond_2p53_to_float" } else { "int_to_float" }, "CAST({0} AS DOUBLE PRECISION)", vec![V::Int(i)], "i", Exp::Near(i as f64, 0.0), "value", vec![true])
+        }
+        3 => {
+            // float -> integer: integral values exact; fractional values: truncation (SQLite) or rounding
+            // (MySQL/PostgreSQL) are both accepted since the README does not pin it
+            let x = gen_float(rng);
+            let (class, exp) = if x.abs() >= TWO63 {
+                ("float_beyond_i64_to_int", Exp::NoPanic)
+            } else if x.fract() == 0.0 {
+                ("integral_float_to_int", n(x as i64))
+            } else {
+                ("float_to_int", Exp::OneOf(vec![n(x.trunc() as i64), n(x.round() as i64)]))
+            };
+            direct("CAST", class, &format!("CAST({{0}} AS {})", int_ty), vec![V::Float(x)], "f", exp, "value", vec![true])
+        }
+        4 => {
+            let k = rng.range(-4000, 4000);
+            let x = k as f64 / 8.0;
+            if x.fract() == 0.0 {
+                return direct("CAST", "float_to_float", &format!("CAST({{0}} AS {})", "DOUBLE PRECISION"), vec![V::Float(x)], "f", Exp::Near(x, 0.0), "value", vec![true]);
+            }
+            direct("CAST", "float_to_text", &format!("CAST({{0}} AS {})", txt_ty), vec![V::Float(x)], "f", t(format!("{}", x)), "value", vec![true])
+        }
+        5 => {
+            let i = gen_int(rng);
+            direct("CAST", "decimal_text_to_int", &format!("CAST({{0}} AS {})", "BIGINT"), vec![tv(i.to_string())], "s", n(i), "value", vec![true])
+        }
+        6 => {
+            let x = rng.range(-4000, 4000) as f64 / 8.0;
+            direct("CAST", "decimal_text_to_float", &format!("CAST({{0}} AS {})", flt_ty), vec![tv(format!("{:?}", x))], "s", Exp::Near(x, 0.0), "value", vec![true])
+        }
+        7 => {
+            let i = if rng.chance(1, 3) { 0 } else { gen_small_int(rng) };
+            direct("CAST", "int_to_bool", "CAST({0} AS BOOLEAN)", vec![V::Int(i)], "i", Exp::Is(V::Bool(i != 0)), "value", vec![true])
+        }
+        8 => {
+            let (s, b) = *rng.pick(&[("true", true), ("false", false), ("TRUE", true), ("FALSE", false)]);
+            direct("CAST", "text_to_bool", "CAST({0} AS BOOLEAN)", vec![tv(s.into())], "s", Exp::Is(V::Bool(b)), "value", vec![true])
+        }
+        9 => {
+            let b = rng.chance(1, 2);
+            direct("CAST", "bool_literal_to_int", &format!("CAST({} AS {})", if b { "TRUE" } else { "FALSE" }, int_ty), vec![], "", n(b as i64), "value", vec![])
+        }
+        _ => {
+            // not a number: MySQL 0 + warning, PostgreSQL error, TurDB NULL: not pinned
+            let s = gen_str(rng, 5);
+            direct("CAST", "arbitrary_text_to_int", &format!("CAST({{0}} AS {})", int_ty), vec![tv(s)], "s", Exp::NoPanic, "value", vec![true])
+        }
+    }
+}
+
+fn gen_value(rng: &mut Rng, kind: u64) -> V {
+    if kind == 0 {
+        V::Int(gen_small_int(rng))
+    } else {
+        tv(gen_str(rng, 4))
+    }
+}
+
+fn gen_control_case(rng: &mut Rng) -> Option<Case> {
+    let kind = rng.below(2);
+    let d = if kind == 0 { 'i' } else { 's' };
+    let val = |rng: &mut Rng, null_in: u64| -> V {
+        if rng.below(null_in) == 0 {
+            V::Null
+        } else if rng.chance(1, 4) && kind == 0 {
+            V::Int(*rng.pick(&[1, 2, 3]))
+        } else {
+            gen_value(rng, kind)
+        }
+    };
+    let cmp3 = |a: &V, b: &V| -> Option<bool> { a.sql_cmp(b).map(|o| o == std::cmp::Ordering::Greater) };
+    match rng.below(9) {
+        0 => {
+            let c = rng.pick(&[V::Int(0), V::Int(1), V::Int(-3), V::Null, V::Int(7)]).clone();
+            let (a, b) = (val(rng, 5), val(rng, 5));
+            mk("IF", vec![c.clone(), a, b], &format!("i{}{}", d, d))
+        }
+        1 => {
+            // IF over a comparison that may be UNKNOWN
+            let (x, y) = (if rng.chance(1, 4) { V::Null } else { V::Int(rng.range(-3, 3)) }, if rng.chance(1, 4) { V::Null } else { V::Int(rng.range(-3, 3)) });
+            let (a, b) = (val(rng, 6), val(rng, 6));
+            let taken = cmp3(&x, &y) == Some(true);
+            let class = if x.is_null() || y.is_null() { "unknown_comparison" } else { "comparison" };
+            Some(direct("IF", class, "IF({0} > {1}, {2}, {3})", vec![x, y, a.clone(), b.clone()], &format!("ii{}{}", d, d), Exp::Is(if taken { a } else { b }), "value", vec![false; 4]))
+        }
+        2 => mk(if rng.chance(1, 2) { "IFNULL" } else { "IFNULL" }, vec![val(rng, 3), val(rng, 5)], &format!("{}{}", d, d)),
+        3 => {
+            let a = val(rng, 5);
+            let b = if rng.chance(1, 3) { a.clone() } else { val(rng, 5) };
+            mk("NULLIF", vec![a, b], &format!("{}{}", d, d))
+        }
+        4 => {
+            let k = rng.usize(1, 4);
+            let args: Vec<V> = (0..k).map(|_| val(rng, 2)).collect();
+            mk("COALESCE", args, &d.to_string().repeat(4))
+        }
+        5 => mk("ISNULL", vec![val(rng, 3)], &d.to_string()),
+        6 => {
+            // searched CASE: first WHEN whose condition is TRUE (UNKNOWN is not TRUE)
+            let (x, y, z) = (if rng.chance(1, 3) { V::Null } else { V::Int(rng.range(-2, 2)) }, if rng.chance(1, 4) { V::Null } else { V::Int(rng.range(-2, 2)) }, if rng.chance(1, 4) { V::Null } else { V::Int(rng.range(-2, 2)) });
+            let (r1, r2, r3) = (val(rng, 8), val(rng, 8), val(rng, 8));
+            let with_else = rng.chance(2, 3);
+            let want = if cmp3(&x, &y) == Some(true) {
+                r1.clone()
+            } else if x.sql_cmp(&z) == Some(std::cmp::Ordering::Equal) {
+                r2.clone()
+            } else if with_else {
+                r3.clone()
+            } else {
+                V::Null
+            };
+            let class = if x.is_null() || y.is_null() || z.is_null() { "searched_unknown_condition" } else { "searched" };
+            let tmpl = if with_else { "CASE WHEN {0} > {1} THEN {3} WHEN {0} = {2} THEN {4} ELSE {5} END" } else { "CASE WHEN {0} > {1} THEN {3} WHEN {0} = {2} THEN {4} END" };
+            let mut args = vec![x, y, z, r1, r2];
+            let mut dd = format!("iii{}{}", d, d);
+            if with_else {
+                args.push(r3);
+                dd.push(d);
+            }
+            let np = vec![false; args.len()];
+            Some(direct("CASE", class, tmpl, args, &dd, Exp::Is(want), "value", np))
+        }
+        7 => {
+            // simple CASE: operand = when-value under SQL equality (NULL equals nothing)
+            let op = val(rng, 4);
+            let w1 = if rng.chance(1, 3) { op.clone() } else { val(rng, 4) };
+            let w2 = if rng.chance(1, 3) { op.clone() } else { val(rng, 4) };
+            if let (V::Text(_), _) | (_, V::Text(_)) = (&op, &w1) {
+                // bytewise vs case-insensitive collation: only identical or fold-different strings
+                for w in [&w1, &w2] {
+                    if let (V::Text(a), V::Text(b)) = (&op, w) {
+                        if a != b && fold(&cs(a)) == fold(&cs(b)) {
+                            return None;
+                        }
+                    }
+                }
+            }
+            let eq = |a: &V, b: &V| a.sql_cmp(b) == Some(std::cmp::Ordering::Equal);
+            let want = if eq(&op, &w1) {
+                V::Text("first".into())
+            } else if eq(&op, &w2) {
+                V::Text("second".into())
+            } else {
+                V::Text("else".into())
+            };
+            let class = if op.is_null() {
+                "simple_null_operand"
+            } else if w1.is_null() || w2.is_null() {
+                "simple_null_when_value"
+            } else {
+                "simple"
+            };
+            Some(direct("CASE", class, "CASE {0} WHEN {1} THEN 'first' WHEN {2} THEN 'second' ELSE 'else' END", vec![op, w1, w2], &d.to_string().repeat(3), Exp::Is(want), "value", vec![false; 3]))
+        }
+        _ => {
+            // CASE without ELSE and no match -> NULL
+            let x = V::Int(rng.range(0, 3));
+            let want = if x.sql_cmp(&V::Int(1)) == Some(std::cmp::Ordering::Equal) { V::Text("one".into()) } else { V::Null };
+            Some(direct("CASE", "no_else", "CASE {0} WHEN 1 THEN 'one' END", vec![x], "i", Exp::Is(want), "value", vec![false]))
+        }
+    }
+}
+
+fn fixed_cases() -> Vec<Case> {
+    let s = |x: &str| tv(x.to_string());
+    vec![
+        // date functions: spot checks only (C41 covers the calendar)
+        direct("YEAR", "date_text", "YEAR({0})", vec![s("2024-02-29")], "s", n(2024), "value", vec![true]),
+        direct("MONTH", "date_text", "MONTH({0})", vec![s("2024-02-29")], "s", n(2), "value", vec![true]),
+        direct("DAY", "date_text", "DAY({0})", vec![s("2024-02-29")], "s", n(29), "value", vec![true]),
+        direct("DATEDIFF", "date_text", "DATEDIFF({0}, {1})", vec![s("2024-03-01"), s("2024-02-28")], "ss", n(2), "value", vec![true, true]),
+        direct("LAST_DAY", "date_text", "LAST_DAY({0})", vec![s("2023-02-10")], "s", t("2023-02-28".into()), "value", vec![true]),
+        direct("DAYOFWEEK", "date_text", "DAYOFWEEK({0})", vec![s("2024-01-01")], "s", n(2), "value", vec![true]),
+        direct("DAYOFYEAR", "date_text", "DAYOFYEAR({0})", vec![s("2024-12-31")], "s", n(366), "value", vec![true]),
+        // system functions: result format not pinned
+        direct("VERSION", "none", "VERSION()", vec![], "", Exp::TextAny, "value", vec![]),
+        direct("DATABASE", "none", "DATABASE()", vec![], "", Exp::NoPanic, "value", vec![]),
+        direct("TYPEOF", "int", "TYPEOF({0})", vec![V::Int(1)], "i", Exp::TextAny, "value", vec![false]),
+        direct("TYPEOF", "text", "TYPEOF({0})", vec![s("a")], "s", Exp::TextAny, "value", vec![false]),
+        direct("TYPEOF", "float", "TYPEOF({0})", vec![V::Float(1.5)], "f", Exp::TextAny, "value", vec![false]),
+        // documented examples from the README tables / module docs
+        direct("SUBSTRING_INDEX", "ascii", "SUBSTRING_INDEX({0}, {1}, {2})", vec![s("www.mysql.com"), s("."), V::Int(-2)], "ssi", t("mysql.com".into()), "value", vec![true, true, true]),
+        direct("INSERT", "ascii", "INSERT({0}, {1}, {2}, {3})", vec![s("Quadratic"), V::Int(3), V::Int(4), s("What")], "siis", t("QuWhattic".into()), "value", vec![true, true, true, true]),
+        direct("CAST", "null", "CAST({0} AS BIGINT)", vec![V::Null], "i", Exp::Null, "null_propagation", vec![false]),
+        direct("CAST", "null", "CAST({0} AS TEXT)", vec![V::Null], "s", Exp::Null, "null_propagation", vec![false]),
+        direct("CAST", "null", "CAST({0} AS DOUBLE PRECISION)", vec![V::Null], "f", Exp::Null, "null_propagation", vec![false]),
+    ]
+}
+
+/// float and mixed arithmetic through the operators
+fn gen_float_arith_case(rng: &mut Rng) -> Case {
+    let op = *rng.pick(&["+", "-", "*", "/", "%"]);
+    let mixed = rng.below(3);
+    let ga = |rng: &mut Rng| if rng.chance(1, 8) { *rng.pick(&[0.0, 1e300, -1e300, 1e-7]) } else { gen_moderate_float(rng) };
+    let (a, b) = match mixed {
+        0 => (V::Float(ga(rng)), V::Float(ga(rng))),
+        1 => (V::Int(gen_small_int(rng)), V::Float(ga(rng))),
+        _ => (V::Float(ga(rng)), V::Int(if rng.chance(1, 6) { 0 } else { gen_small_int(rng) })),
+    };
+    let (x, y) = (fv(&a).unwrap(), fv(&b).unwrap());
+    let name = match op {
+        "+" => "add",
+        "-" => "sub",
+        "*" => "mul",
+        "/" => "div",
+        _ => "mod",
+    };
+    let (class, exp, assertion): (&str, Exp, &'static str) = if (op == "/" || op == "%") && y == 0.0 {
+        ("float_zero_divisor", Exp::NullOrErr, "div_zero")
+    } else {
+        let r = match op {
+            "+" => x + y,
+            "-" => x - y,
+            "*" => x * y,
+            "/" => x / y,
+            _ => x % y,
+        };
+        if r.is_infinite() {
+            ("float_overflow", Exp::InfOrNullOrErr, "overflow")
+        } else {
+            (if mixed == 0 { "float" } else { "int_float_mixed" }, Exp::Near(r, 1e-12), "value")
+        }
+    };
+    direct(name, class, &format!("{{0}} {} {{1}}", op), vec![a, b], "ff", exp, assertion, vec![true, true])
+}
+
+// ---------------------------------------------------------------------------------------------
+// integer arithmetic: no_wrap / division by zero / truncation, on five evaluation paths
+// ---------------------------------------------------------------------------------------------
+
+#[derive(Clone, Copy, Debug, PartialEq)]
+enum Ar {
+    Val(i64),
+    Overflow,
+    DivZero,
+}
+
+fn arith_exact(op: &str, a: i64, b: i64) -> Ar {
+    let (x, y) = (a as i128, b as i128);
+    let r = match op {
+        "add" => x + y,
+        "sub" => x - y,
+        "mul" => x * y,
+        "div" => {
+            if b == 0 {
+                return Ar::DivZero;
+            }
+            x / y // truncates toward zero
+        }
+        "mod" => {
+            if b == 0 {
+                return Ar::DivZero;
+            }
+            x % y // sign of the dividend
+        }
+        "neg" => -x,
+        _ => x.abs(),
+    };
+    match fits(r) {
+        Some(v) => Ar::Val(v),
+        None => Ar::Overflow,
+    }
+}
+
+fn arith_tmpl(op: &str) -> &'static str {
+    match op {
+        "add" => "{0} + {1}",
+        "sub" => "{0} - {1}",
+        "mul" => "{0} * {1}",
+        "div" => "{0} / {1}",
+        "mod" => "{0} % {1}",
+        "neg" => "-{0}",
+        _ => "ABS({0})",
+    }
+}
+
+fn gen_arith_operands(rng: &mut Rng, op: &str) -> (i64, i64) {
+    let a = gen_int(rng);
+    let b = match rng.below(8) {
+        0 => 0,
+        1 => -1,
+        2 => {
+            // make the result land next to the i64 boundary
+            match op {
+                "add" => (i64::MAX as i128 - a as i128 + rng.range(-2, 2) as i128).clamp(i64::MIN as i128, i64::MAX as i128) as i64,
+                "sub" => (a as i128 - i64::MAX as i128 + rng.range(-2, 2) as i128).clamp(i64::MIN as i128, i64::MAX as i128) as i64,
+                "mul" if a != 0 => (i64::MAX / a).saturating_add(rng.range(-1, 1)),
+                _ => gen_int(rng),
+            }
+        }
+        3 => rng.range(-9, 9),
+        _ => gen_int(rng),
+    };
+    (a, b)
+}
+
+impl H {
+    fn arith_violation(&mut self, op: &str, path: &str, class: &str, what: &str, got: &Result<String, String>, sql: &str, setup: &[String], expected: &str) {
+        let sig = match got {
+            Err(e) if is_panic(e) => {
+                let (tag, in_repo) = site_tag(e);
+                if in_repo {
+                    format!("C20/no_wrap/panic/{}", tag)
+                } else {
+                    format!("C20/no_wrap/panic/{}:{}", op, tag)
+                }
+            }
+            Err(e) => format!("C20/{}/{}/{}/unexpected_error:{}/{}", op, class, what, err_class(e), path),
+            Ok(_) => format!("C20/{}/{}/{}/{}", op, class, what, path),
+        };
+        let detail = json!({"op": op, "path": path, "setup": setup, "sql": sql, "expected": expected, "got": match got { Ok(s) => json!(s), Err(e) => json!({"error": e}) }});
+        self.record(sig, what, detail);
+    }
+
+    /// one integer operator application on all paths
+    pub fn run_arith(&mut self, op: &'static str, a: i64, b: i64) {
+        self.ctx.eval();
+        *self.judged.entry(format!("op:{}", op)).or_insert(0) += 1;
+        let unary = op == "neg" || op == "abs";
+        let want = arith_exact(op, a, b);
+        let class = match want {
+            Ar::Overflow => "overflow",
+            Ar::DivZero => "zero_divisor",
+            Ar::Val(_) => {
+                if (op == "div" || op == "mod") && (a < 0 || b < 0) {
+                    "negative_operand"
+                } else {
+                    int_class(&[a, b])
+                }
+            }
+        };
+        let what = match want {
+            Ar::Overflow => "no_wrap",
+            Ar::DivZero => "div_zero",
+            Ar::Val(_) => "value",
+        };
+        let expected = format!("{:?}", want);
+        let exp = match want {
+            Ar::Val(v) => n(v),
+            _ => Exp::NullOrErr,
+        };
+        let tmpl = arith_tmpl(op);
+        let lits = vec![lit(&V::Int(a)), lit(&V::Int(b))];
+        let cols = vec!["i1".to_string(), "i2".to_string()];
+        let e_lit = render(tmpl, &lits);
+        let e_col = render(tmpl, &cols);
+        self.ctx.nontrivial(fnv(format!("{}|{}|{}", op, a, if unary { 0 } else { b }).as_bytes()));
+        let show = |g: &Result<V, String>| -> Result<String, String> { g.clone().map(|v| format!("{:?}", v)) };
+
+        // path 1: constant expression
+        let sql = format!("SELECT {}", e_lit);
+        let g = self.q1(&sql);
+        let bad = matches!(&g, Err(e) if is_panic(e)) || !accepts(&exp, &g);
+        if bad {
+            self.arith_violation(op, "const", class, what, &show(&g), &sql, &[], &expected);
+        }
+
+        // table w: row 1 = the operands, row 2 = (1, 1)
+        let setup = vec!["DELETE FROM w".to_string(), format!("INSERT INTO w VALUES (1, {}, {}, NULL), (2, 1, 1, NULL)", ins_lit(&V::Int(a)), ins_lit(&V::Int(b)))];
+        self.db();
+        for s in &setup {
+            if self.exec(s).is_err() {
+                self.ctx.count("dropped_column_setup", 1);
+                self.fresh_db();
+                return;
+            }
+        }
+        match self.db().query("SELECT i1, i2 FROM w WHERE id = 1") {
+            Ok(rows) if rows.len() == 1 && matches!((&rows[0][0], &rows[0][1]), (V::Int(x), V::Int(y)) if *x == a && *y == b) => {}
+            _ => {
+                self.ctx.count("dropped_column_setup", 1);
+                return;
+            }
+        }
+        // path 2: select list over columns
+        let sql = format!("SELECT {} FROM w WHERE id = 1", e_col);
+        let g = self.q1(&sql);
+        if matches!(&g, Err(e) if is_panic(e)) || !accepts(&exp, &g) {
+            self.arith_violation(op, "column", class, what, &show(&g), &sql, &setup, &expected);
+        }
+        // path 3: WHERE
+        let r2 = arith_exact(op, 1, 1);
+        let (sql, want_ids): (String, Vec<i64>) = match want {
+            Ar::Val(v) => {
+                let mut ids = vec![1];
+                if r2 == Ar::Val(v) {
+                    ids.push(2);
+                }
+                (format!("SELECT id FROM w WHERE {} = {}", e_col, lit(&V::Int(v))), ids)
+            }
+            // no value: the row must not satisfy any comparison of its result
+            _ => (format!("SELECT id FROM w WHERE ({e}) >= 0 OR ({e}) < 0", e = e_col), vec![2]),
+        };
+        let g = self.ids(&sql);
+        let ok = match (&g, want) {
+            (Err(e), _) if is_panic(e) => false,
+            (Err(_), Ar::Val(_)) => false,
+            (Err(_), _) => true,
+            (Ok(ids), _) => {
+                let mut s = ids.clone();
+                s.sort();
+                s == want_ids
+            }
+        };
+        if !ok {
+            let shown = g.clone().map(|ids| format!("ids {:?}", ids));
+            self.arith_violation(op, "where", class, what, &shown, &sql, &setup, &format!("ids {:?} ({})", want_ids, expected));
+        }
+        // path 4: ORDER BY expression
+        let sql = format!("SELECT id FROM w ORDER BY {}, id", e_col);
+        let g = self.ids(&sql);
+        let ok = match (&g, want, r2) {
+            (Err(e), _, _) if is_panic(e) => false,
+            (Ok(ids), Ar::Val(v), Ar::Val(v2)) if v != v2 => *ids == if v < v2 { vec![1, 2] } else { vec![2, 1] },
+            (Err(_), Ar::Val(_), _) => false,
+            _ => true,
+        };
+        if !ok {
+            let shown = g.clone().map(|ids| format!("ids {:?}", ids));
+            if matches!(&g, Ok(ids) if *ids == vec![1, 2]) {
+                // rows come back in id order although the key says otherwise: the sort key was not evaluated
+                let detail = json!({"op": op, "setup": setup, "sql": sql, "expected": format!("row 1 -> {}, row 2 -> {:?}", expected, r2), "got": shown.clone().unwrap_or_default()});
+                self.record("C20/order_by/sort_key_ignored/value".to_string(), "value", detail);
+            } else {
+                self.arith_violation(op, "order_by", "any", what, &shown, &sql, &setup, &format!("row 1 -> {}, row 2 -> {:?}", expected, r2));
+            }
+        }
+        // path 5: UPDATE .. SET r = expr (README: `SET age = age + 1`); + - * / and unary minus
+        if matches!(op, "add" | "sub" | "mul" | "div" | "neg") {
+            let sql = format!("UPDATE w SET r = {} WHERE id = 1", e_col);
+            let u = self.exec(&sql);
+            let panicked = matches!(&u, Err(e) if is_panic(e));
+            let res: Result<V, String> = match u {
+                Err(e) => Err(e),
+                Ok(()) => self.q1("SELECT r FROM w WHERE id = 1"),
+            };
+            let ok = !panicked && accepts(&exp, &res);
+            if !ok {
+                self.arith_violation(op, "update_set", class, what, &show(&res), &sql, &setup, &expected);
+            }
+            if panicked {
+                self.fresh_db();
+            }
+        }
+    }
+}
+
+// ---------------------------------------------------------------------------------------------
+// calls that may exhaust memory instead of panicking: run in a child process with an address-space cap
+// ---------------------------------------------------------------------------------------------
+
+#[cfg(all(unix, not(miri)))]
+pub struct Hostile {
+    kids: Vec<(&'static str, &'static str, &'static str, std::process::Child)>,
+}
+
+const HOSTILE_STMTS: &[(&str, &str, &str)] = &[
+    ("RPAD", "negative_len", "SELECT RPAD('hi', -1, 'x')"),
+    ("LPAD", "huge_len", "SELECT LPAD('hi', 1000000000000, 'x')"),
+    ("RPAD", "huge_len", "SELECT RPAD('hi', 1000000000000, 'x')"),
+    ("REPEAT", "huge_count", "SELECT REPEAT('ab', 1000000000000)"),
+    ("SPACE", "huge_count", "SELECT SPACE(1000000000000)"),
+];
+const CAP_MIB: u64 = 256;
+const CAP_CPU_S: u64 = 15;
+
+/// start `tv sql <stmt>` children with an address-space cap, a cpu cap and core dumps disabled
+#[cfg(all(unix, not(miri)))]
+fn hostile_spawn(h: &mut H) -> Hostile {
+    use std::os::unix::process::CommandExt;
+    use std::process::{Command, Stdio};
+    let mut kids = vec![];
+    let exe = match std::env::current_exe() {
+        Ok(e) => e,
+        Err(_) => return Hostile { kids },
+    };
+    for (f, class, stmt) in HOSTILE_STMTS {
+        let mut cmd = Command::new(&exe);
+        cmd.arg("sql").arg(stmt).env("RUST_BACKTRACE", "0").stdout(Stdio::piped()).stderr(Stdio::null()).stdin(Stdio::null());
+        unsafe {
+            cmd.pre_exec(|| {
+                let lim = libc::rlimit { rlim_cur: CAP_MIB << 20, rlim_max: CAP_MIB << 20 };
+                libc::setrlimit(libc::RLIMIT_AS, &lim);
+                let cpu = libc::rlimit { rlim_cur: CAP_CPU_S, rlim_max: CAP_CPU_S + 1 };
+                libc::setrlimit(libc::RLIMIT_CPU, &cpu);
+                let core = libc::rlimit { rlim_cur: 0, rlim_max: 0 };
+                libc::setrlimit(libc::RLIMIT_CORE, &core);
+                Ok(())
+            });
+        }
+        match cmd.spawn() {
+            Ok(c) => kids.push((*f, *class, *stmt, c)),
+            Err(_) => h.ctx.count("subprocess_unavailable", 1),
+        }
+    }
+    Hostile { kids }
+}
+
+#[cfg(all(unix, not(miri)))]
+fn hostile_collect(h: &mut H, ho: Hostile) {
+    use std::os::unix::process::ExitStatusExt;
+    for (f, class, stmt, child) in ho.kids {
+        h.ctx.eval();
+        h.ctx.count("subprocess_cases", 1);
+        let pid = child.id();
+        let out = match child.wait_with_output() {
+            Ok(o) => o,
+            Err(_) => {
+                h.ctx.count("subprocess_unavailable", 1);
+                continue;
+            }
+        };
+        let _ = std::fs::remove_dir_all(format!("{}/scratch/probe-{}", crate::report::VERIF_DIR, pid));
+        let text: String = String::from_utf8_lossy(&out.stdout).chars().take(300).collect();
+        if let Some(sig) = out.status.signal() {
+            h.record(
+                format!("C20/{}/{}/resource_exhaustion", f, class),
+                "no_panic",
+                json!({"sql": stmt, "outcome": format!("child process killed by signal {}", sig), "caps": format!("address space {} MiB, cpu {} s, set by the harness; without them the process grows until the OOM killer ends it", CAP_MIB, CAP_CPU_S), "output": text}),
+            );
+        } else if text.contains("ERR PANIC") {
+            let site = text.split(" @ ").last().unwrap_or("").trim().rsplit('/').next().unwrap_or("").to_string();
+            h.record(format!("C20/{}/{}/panic/{}", f, class, site), "no_panic", json!({"sql": stmt, "output": text}));
+        } else {
+            h.ctx.nontrivial(fnv(stmt.as_bytes()));
+        }
+    }
+}
+
+// ---------------------------------------------------------------------------------------------
+// driver
+// ---------------------------------------------------------------------------------------------
+
+pub fn run(a: &Args) -> i32 {
+    let ctx = Ctx::new(
+        "C20",
+        &a.tier,
+        a.seed,
+        "exploration",
+        "one function/operator application per case, evaluated as `SELECT f(<literals>)` and as `SELECT f(<columns>) FROM c WHERE id = k` (arguments stored, read back intact); oracle = definitions written in the harness from the README function tables / module docs with MySQL semantics (characters = Unicode scalar values, exact i128 integer arithmetic); string functions on ASCII and multi-byte strings, numeric functions on boundary integers/floats, CAST, IF/IFNULL/NULLIF/COALESCE/CASE with NULLs, NULL-in => NULL-out per function and argument position, 7 date spot checks; integer + - * / % unary-minus ABS on boundary operands on five paths (constant, select-list over columns, WHERE, ORDER BY, UPDATE SET): exact result or error/NULL when it does not fit i64 or the divisor is 0. distinct_nontrivial = distinct applications (by SQL text) with a pinned expectation; applications whose definition the docs do not pin are only checked for no panic (counter cases_no_panic_only)",
+    );
+    let mut rng = Rng::derive(a.seed, 20);
+    let quick = ctx.quick();
+    let miri = cfg!(miri);
+    let scale: usize = if miri { 1 } else if quick { 120 } else { 2400 };
+    let mut h = H { ctx, scratch: Scratch::new("c20"), db: None, dbn: 0, next_id: 0, sigs: BTreeMap::new(), judged: BTreeMap::new(), np_done: BTreeMap::new(), np_cap: if quick { 6 } else { 60 } };
+    if !h.fresh_db() {
+        return h.ctx.finish();
+    }
+
+    // calls that may not return are started now in capped child processes and judged at the end
+    #[cfg(all(unix, not(miri)))]
+    let hostile = hostile_spawn(&mut h);
+
+    // integer arithmetic
+    let ops: [&'static str; 7] = ["add", "sub", "mul", "div", "mod", "neg", "abs"];
+    // fixed boundary cases first (the ones the property names)
+    for (op, x, y) in [("div", i64::MIN, -1), ("mod", i64::MIN, -1), ("neg", i64::MIN, 0), ("abs", i64::MIN, 0), ("add", i64::MAX, 1), ("sub", i64::MIN, 1), ("mul", 3037000500, 3037000500), ("div", -7, 2), ("div", 7, -2), ("mod", -7, 2), ("mod", 7, -2), ("div", 1, 0), ("mod", 1, 0)] {
+        h.run_arith(op, x, y);
+    }
+    for _ in 0..(scale * 12) {
+        let op = *rng.pick(&ops);
+        let (x, y) = gen_arith_operands(&mut rng, op);
+        h.run_arith(op, x, y);
+    }
+    for _ in 0..(scale * 6) {
+        let c = gen_float_arith_case(&mut rng);
+        h.run_case(&c, false);
+        h.run_null_variants(&c);
+    }
+
+    // fixed cases
+    for c in fixed_cases() {
+        h.run_case(&c, false);
+        h.run_null_variants(&c);
+    }
+    // string functions
+    for i in 0..(scale * 90) {
+        let which = STRING_FUNCS[i % STRING_FUNCS.len()];
+        if let Some(c) = gen_string_case(&mut rng, which) {
+            h.run_case(&c, true);
+            h.run_null_variants(&c);
+        } else {
+            h.ctx.count("dropped_not_pinned", 1);
+        }
+    }
+    // numeric functions
+    for i in 0..(scale * 70) {
+        let which = NUMERIC_FUNCS[i % NUMERIC_FUNCS.len()];
+        if let Some(c) = gen_numeric_case(&mut rng, which) {
+            h.run_case(&c, false);
+            h.run_null_variants(&c);
+        } else {
+            h.ctx.count("dropped_not_pinned", 1);
+        }
+    }
+    // CAST, control flow
+    for _ in 0..(scale * 20) {
+        let c = gen_cast_case(&mut rng);
+        h.run_case(&c, false);
+        h.run_null_variants(&c);
+    }
+    for _ in 0..(scale * 30) {
+        if let Some(c) = gen_control_case(&mut rng) {
+            h.run_case(&c, false);
+        } else {
+            h.ctx.count("dropped_not_pinned", 1);
+        }
+    }
+    #[cfg(all(unix, not(miri)))]
+    hostile_collect(&mut h, hostile);
+
+    let sigs: BTreeMap<String, J> = h.sigs.iter().map(|(k, (n, d))| (k.clone(), json!({"count": n, "example": d}))).collect();
+    h.ctx.extra.insert("signatures".into(), json!(sigs));
+    h.ctx.extra.insert("cases_by_function".into(), json!(h.judged));
+    h.ctx.assumptions.push("MySQL semantics is taken as the definition of the MySQL-named functions; text comparison is bytewise, so searches/comparisons that a case-insensitive collation would decide differently are not generated; float results are compared with relative tolerance 1e-9..1e-14; rounding ties, float->int CAST of fractional values, REPLACE with empty pattern, LPAD/RPAD with empty pad, SUBSTR with a start before the string, FORMAT, non-numeric text->int CAST, ASCII() of a multi-byte character and POWER domain errors are only checked for no panic; GREATEST/LEAST with a NULL argument may answer NULL or ignore it".into());
+    h.ctx.assumptions.push("the harness debug profile enables overflow-checks, so `a + b` on i64 panics where a release build of TurDB wraps silently; i64::MIN / -1 and i64::MIN % -1 panic in every profile".into());
+    let H { ctx, scratch, db, .. } = h;
+    drop(db);
+    drop(scratch);
+    ctx.finish()
 }
